@@ -271,7 +271,9 @@ func (e *AttachExpression) EndPosition(memoryGauge common.MemoryGauge) Position 
 }
 
 func (*AttachExpression) precedence() expressionPrecedence {
-	return expressionPrecedenceLiteral
+	// NOTE: the parser parses the base with the lowest binding power,
+	// i.e. everything that follows is part of the base
+	return expressionPrecedenceTernary
 }
 
 func (e *AttachExpression) MarshalJSON() ([]byte, error) {
